@@ -244,3 +244,437 @@ Proof.
   - destruct Hx as [<-|Hx]; [apply (Wa ad Had)|]. destruct (existsb _ _); [contradiction|auto].
   - auto.
 Qed.
+
+(* ------------------------------------------------------------------ the left side of a THEN: OR groups of sequences *)
+(* a step: an OR group of payload filters (data: = both directions) and negated single-direction payload filters *)
+Fixpoint grp (e : expr) : bool :=
+  match e with
+  | EAtom (AData _ els) => negb (is_nil els)
+  | ENot (EAtom (AData _ [_])) => true
+  | EOr a b => grp a && grp b
+  | _ => false
+  end.
+(* sequences of steps, and OR groups of those *)
+Fixpoint seqs (e : expr) : bool :=
+  match e with
+  | EOr a b => seqs a && seqs b
+  | EThen a g => seqs a && grp g
+  | _ => grp e
+  end.
+
+Fixpoint glit (g : expr) (i : nat) : lit :=
+  match g with
+  | EAtom (AData s els) => LPos s (nth i els 0%N)
+  | ENot (EAtom (AData s [el])) => LNeg s el
+  | EOr a b => if Nat.ltb i (readings a) then glit a i else glit b (i - readings a)
+  | _ => LPos 0 0
+  end.
+Fixpoint rd (e : expr) (i : nat) : lit * list lit :=
+  match e with
+  | EOr a b => if Nat.ltb i (readings a) then rd a i else rd b (i - readings a)
+  | EThen a g => let '(f, r) := rd a (i / readings g) in (f, r ++ [glit g (i mod readings g)])
+  | _ => (glit e i, [])
+  end.
+Definition rseq (fr : lit * list lit) : expr := seq_expr (fst fr) (snd fr).
+
+Lemma grp_readings g : grp g = true -> (0 < readings g)%nat.
+Proof.
+  induction g as [a| |a IH|a IHa b IHb|a IHa b IHb|a IHa b IHb]; cbn [grp readings]; intros H; try discriminate.
+  - destruct a; try discriminate. destruct elems; [discriminate|cbn; lia].
+  - lia.
+  - apply andb_true_iff in H as [Ha Hb]. specialize (IHa Ha). lia.
+Qed.
+Lemma grp_seqs g : grp g = true -> seqs g = true.
+Proof.
+  induction g as [a| |a IH|a IHa b IHb|a IHa b IHb|a IHa b IHb]; cbn [grp seqs]; intros H; try discriminate; auto.
+  apply andb_true_iff in H as [Ha Hb]. rewrite IHa, IHb by auto. reflexivity.
+Qed.
+Lemma seqs_readings e : seqs e = true -> (0 < readings e)%nat.
+Proof.
+  induction e as [a| |a IH|a IHa b IHb|a IHa b IHb|a IHa b IHb]; cbn [seqs]; intros H; try discriminate.
+  - apply grp_readings. exact H.
+  - apply grp_readings. exact H.
+  - apply andb_true_iff in H as [Ha Hb]. specialize (IHa Ha). cbn. lia.
+  - apply andb_true_iff in H as [Ha Hb]. specialize (IHa Ha). pose proof (grp_readings _ Hb). cbn. nia.
+Qed.
+
+(* ---- a step is one literal per reading *)
+Lemma grp_run v g : grp g = true -> forall i q, (i < readings g)%nat -> run v g i q = run v (lit_expr (glit g i)) 0 q.
+Proof.
+  induction g as [a| |a IH|a IHa b IHb|a IHa b IHb|a IHa b IHb]; cbn [grp]; intros H i q Hi; try discriminate.
+  - destruct a as [| | | | |sub els]; try discriminate. cbn [readings] in Hi. cbn [glit lit_expr run].
+    rewrite (nth_error_nth' els 0%N Hi). cbn [nth_error]. reflexivity.
+  - destruct a as [[| | | | |sub [|el [|]]]| | | | |]; try discriminate. reflexivity.
+  - apply andb_true_iff in H as [Ha Hb]. cbn [readings] in Hi. cbn [run glit].
+    destruct (Nat.ltb_spec i (readings a)); [apply IHa; auto|apply IHb; auto; lia].
+Qed.
+
+Lemma seq_shift_add n : forall m, seq m n = map (fun k => (m + k)%nat) (seq 0 n).
+Proof.
+  induction n as [|n IH]; intros m; [reflexivity|]. cbn [seq map]. rewrite Nat.add_0_r. f_equal.
+  rewrite <- (seq_shift n 0), map_map, (IH (S m)). apply map_ext. intros k. lia.
+Qed.
+Lemma seqn_app m n : seqn (m + n) = seqn m ++ map (fun k => (m + k)%nat) (seqn n).
+Proof. unfold seqn. rewrite seq_app. f_equal. apply seq_shift_add. Qed.
+
+Lemma seqn_S m : seqn (S m) = 0%nat :: map S (seqn m).
+Proof. unfold seqn. cbn [seq]. rewrite seq_shift. reflexivity. Qed.
+
+Lemma map_nth_seqn {A B} (f : A -> B) (l : list A) d : map (fun i => f (nth i l d)) (seqn (length l)) = map f l.
+Proof.
+  induction l as [|x l IH]; [reflexivity|]. cbn [length]. rewrite seqn_S. cbn [map nth]. f_equal.
+  rewrite map_map. exact IH.
+Qed.
+
+Lemma grp_norm g : grp g = true ->
+  norm g = Some (map (fun i => chains [lit_chain (glit g i)]) (seqn (readings g))).
+Proof.
+  induction g as [a| |a IH|a IHa b IHb|a IHa b IHb|a IHa b IHb]; cbn [grp]; intros H; try discriminate.
+  - destruct a as [| | | | |sub els]; try discriminate. cbn [norm conds_of_atom readings glit]. f_equal.
+    symmetry. apply (map_nth_seqn (fun e => [CData (mkData [e] false)]) els 0%N).
+  - destruct a as [[| | | | |sub [|el [|]]]| | | | |]; try discriminate. reflexivity.
+  - apply andb_true_iff in H as [Ha Hb]. cbn [norm readings]. rewrite (IHa Ha), (IHb Hb). f_equal.
+    unfold cs_or. rewrite seqn_app, map_app, map_map. f_equal.
+    + apply map_ext_in. intros i Hi. apply in_seq in Hi. cbn [glit]. destruct (Nat.ltb_spec i (readings a)); [reflexivity|lia].
+    + apply map_ext. intros k. cbn [glit]. destruct (Nat.ltb_spec (readings a + k) (readings a)); [lia|].
+      replace (readings a + k - readings a)%nat with k by lia. reflexivity.
+Qed.
+
+(* run of a THEN only looks at the right side through its runs *)
+Definition then_run (ra : option (list N)) (rb : N -> option (list N)) (p : N) : option (list N) :=
+  match ra with
+  | None => None
+  | Some [] => rb p
+  | Some ends =>
+      fold_right (fun q acc => match rb q, acc with
+                               | Some [], Some r => Some (q :: r)
+                               | Some ys, Some r => Some (ys ++ r)
+                               | _, _ => None
+                               end) (Some []) ends
+  end.
+Lemma run_then v a b i p :
+  run v (EThen a b) i p = then_run (run v a (i / readings b) p) (fun q => run v b (i mod readings b) q) p.
+Proof. reflexivity. Qed.
+Lemma then_run_ext ra rb rb' p : (forall q, rb q = rb' q) -> then_run ra rb p = then_run ra rb' p.
+Proof.
+  intros H. unfold then_run. destruct ra as [[|q0 ends]|]; auto.
+  generalize (q0 :: ends). intros l. induction l as [|x l IH]; cbn [fold_right]; [reflexivity|]. rewrite H, IH. reflexivity.
+Qed.
+
+Lemma rseq_snoc f r l : rseq (f, r ++ [l]) = EThen (rseq (f, r)) (lit_expr l).
+Proof. unfold rseq, seq_expr. cbn [fst snd]. rewrite fold_left_app. reflexivity. Qed.
+
+Lemma seqs_run v e : seqs e = true -> forall i p, (i < readings e)%nat -> run v e i p = run v (rseq (rd e i)) 0 p.
+Proof.
+  induction e as [a| |a IH|a IHa b IHb|a IHa b IHb|a IHa b IHb]; cbn [seqs]; intros H i p Hi; try discriminate.
+  - apply (grp_run v (EAtom a) H i p Hi).
+  - apply (grp_run v (ENot a) H i p Hi).
+  - apply andb_true_iff in H as [Ha Hb]. cbn [readings] in Hi. cbn [run rd].
+    destruct (Nat.ltb_spec i (readings a)); [apply IHa; auto|apply IHb; auto; lia].
+  - apply andb_true_iff in H as [Ha Hb]. cbn [readings] in Hi. pose proof (grp_readings _ Hb) as Hg.
+    assert (Hi1 : (i / readings b < readings a)%nat) by (apply Nat.div_lt_upper_bound; lia).
+    assert (Hi2 : (i mod readings b < readings b)%nat) by (apply Nat.mod_upper_bound; lia).
+    cbn [rd]. destruct (rd a (i / readings b)) as [f r] eqn:Er.
+    rewrite rseq_snoc, !run_then, readings_lit. cbn [Nat.div Nat.modulo Nat.divmod fst snd].
+    rewrite (IHa Ha _ p Hi1), Er. apply then_run_ext. intros q. apply (grp_run v b Hb _ q Hi2).
+Qed.
+
+(* the conjunct of a sequence *)
+Definition cj (fr : lit * list lit) : conj := match norm (rseq fr) with Some [c] => c | _ => [] end.
+
+Lemma cj_lit l : cj (l, []) = chains [lit_chain l].
+Proof. unfold cj, rseq, seq_expr. cbn [fst snd fold_left]. rewrite norm_lit. reflexivity. Qed.
+Lemma norm_rseq fr : norm (rseq fr) = Some [cj fr].
+Proof.
+  destruct fr as [f r]. unfold cj.
+  destruct (seq_both (mkVal (fun _ => mkStream (fun _ => 0) 0 0 0%N [] [] (fun _ => 1%N)) (fun _ _ => None) 0%N) f r) as (ds & M & Hn & _).
+  unfold rseq. cbn [fst snd]. rewrite Hn. reflexivity.
+Qed.
+Lemma cj_snoc f r l : cj (f, r ++ [l]) = conj_then (cj (f, r)) (chains [lit_chain l]).
+Proof.
+  unfold cj at 1. rewrite rseq_snoc. cbn [norm]. rewrite norm_rseq, norm_lit. reflexivity.
+Qed.
+
+Lemma flat_map_grid {A B C} (F : A -> B -> C) (g : nat -> B) n : (0 < n)%nat -> forall m (f : nat -> A),
+  flat_map (fun x => map (fun y => F x y) (map g (seqn n))) (map f (seqn m)) =
+  map (fun k => F (f (k / n)%nat) (g (k mod n)%nat)) (seqn (m * n)).
+Proof.
+  intros Hn. induction m as [|m IH]; intros f0; [reflexivity|].
+  rewrite seqn_S. cbn [map flat_map]. rewrite (map_map S f0 (seqn m)), (IH (fun i => f0 (S i))).
+  change (S m * n)%nat with (n + m * n)%nat. rewrite seqn_app, map_app. f_equal.
+  - rewrite map_map. apply map_ext_in. intros k Hk. apply in_seq in Hk.
+    rewrite Nat.div_small, Nat.mod_small by lia. reflexivity.
+  - rewrite map_map. apply map_ext. intros k.
+    replace (n + k)%nat with (k + 1 * n)%nat by lia. rewrite Nat.div_add, Nat.mod_add by lia.
+    replace (k / n + 1)%nat with (S (k / n)) by lia. reflexivity.
+Qed.
+
+Lemma seqs_norm e : seqs e = true -> norm e = Some (map (fun i => cj (rd e i)) (seqn (readings e))).
+Proof.
+  induction e as [a| |a IH|a IHa b IHb|a IHa b IHb|a IHa b IHb]; cbn [seqs]; intros H; try discriminate.
+  - rewrite (grp_norm (EAtom a) H). f_equal. apply map_ext. intros i. cbn [rd]. rewrite cj_lit. reflexivity.
+  - rewrite (grp_norm (ENot a) H). f_equal. apply map_ext. intros i. cbn [rd]. rewrite cj_lit. reflexivity.
+  - apply andb_true_iff in H as [Ha Hb]. cbn [norm readings]. rewrite (IHa Ha), (IHb Hb). f_equal.
+    unfold cs_or. rewrite seqn_app, map_app, map_map. f_equal.
+    + apply map_ext_in. intros i Hi. apply in_seq in Hi. cbn [rd]. destruct (Nat.ltb_spec i (readings a)); [reflexivity|lia].
+    + apply map_ext. intros k. cbn [rd]. destruct (Nat.ltb_spec (readings a + k) (readings a)); [lia|].
+      replace (readings a + k - readings a)%nat with k by lia. reflexivity.
+  - apply andb_true_iff in H as [Ha Hb]. cbn [norm readings]. rewrite (IHa Ha), (grp_norm b Hb).
+    pose proof (seqs_readings a Ha) as Hra. pose proof (grp_readings b Hb) as Hrb.
+    f_equal. unfold cs_then.
+    destruct (map (fun i => cj (rd a i)) (seqn (readings a))) as [|x0 xs] eqn:Ex.
+    { unfold seqn in Ex. destruct (readings a); [lia|discriminate]. }
+    destruct (map (fun i => chains [lit_chain (glit b i)]) (seqn (readings b))) as [|y0 ys] eqn:Ey.
+    { unfold seqn in Ey. destruct (readings b); [lia|discriminate]. }
+    rewrite <- Ex, <- Ey.
+    rewrite (flat_map_grid conj_then (fun i => chains [lit_chain (glit b i)]) (readings b) Hrb (readings a) (fun i => cj (rd a i))).
+    apply map_ext. intros k. cbn [rd]. destruct (rd a (k / readings b)) as [f r]. rewrite cj_snoc. reflexivity.
+Qed.
+
+(* ------------------------------------------------------------------ the class of the theorem *)
+Fixpoint tail_ok (e : expr) : bool :=
+  match e with
+  | EAtom _ | ESkip => true
+  | ENot a => tail_ok a
+  | EAnd a b | EOr a b => tail_ok a && tail_ok b
+  | EThen a b => seqs a && tail_ok b
+  end.
+
+Lemma then_free_tail_ok e : then_free e = true -> tail_ok e = true.
+Proof.
+  induction e as [a| |a IH|a IHa b IHb|a IHa b IHb|a IHa b IHb]; cbn; intros H; auto; try discriminate;
+    apply andb_true_iff in H as [Ha Hb]; rewrite IHa, IHb; auto.
+Qed.
+
+Lemma grp_strip g : grp g = true -> strip g = Some g.
+Proof.
+  induction g as [a| |a IH|a IHa b IHb|a IHa b IHb|a IHa b IHb]; cbn [grp]; intros H; try discriminate.
+  - reflexivity.
+  - destruct a as [[| | | | |sub [|el [|]]]| | | | |]; try discriminate. reflexivity.
+  - apply andb_true_iff in H as [Ha Hb]. cbn [strip]. rewrite (IHa Ha), (IHb Hb). reflexivity.
+Qed.
+Lemma seqs_strip e : seqs e = true -> strip e = Some e.
+Proof.
+  induction e as [a| |a IH|a IHa b IHb|a IHa b IHb|a IHa b IHb]; cbn [seqs]; intros H; try discriminate.
+  - reflexivity.
+  - apply (grp_strip (ENot a) H).
+  - apply andb_true_iff in H as [Ha Hb]. cbn [strip]. rewrite (IHa Ha), (IHb Hb). reflexivity.
+  - apply andb_true_iff in H as [Ha Hb]. cbn [strip]. rewrite (IHa Ha), (grp_strip b Hb). reflexivity.
+Qed.
+
+(* one sequence: its conjunct and its run *)
+Lemma cj_run v fr :
+  exists ds M, cj fr = chains ds /\ seq_inv ds M /\
+               run v (rseq fr) 0 (v_start v) = enc v M (eval_conj v (cj fr)) /\
+               (eval_conj v (cj fr) = true -> pos_of v M <> None).
+Proof.
+  destruct fr as [f r]. destruct (seq_both v f r) as (ds & M & Hn & I & Hr & _ & Hp).
+  assert (Hc : cj (f, r) = chains ds) by (unfold cj, rseq; cbn [fst snd]; rewrite Hn; reflexivity).
+  exists ds, M. rewrite Hc, eval_chains. auto.
+Qed.
+
+Lemma is_some_enc v M ok : (ok = true -> pos_of v M <> None) -> is_some (enc v M ok) = ok.
+Proof.
+  intros H. unfold enc. destruct ok; [|reflexivity]. destruct M as [|m M']; [reflexivity|].
+  destruct (pos_of v (m :: M')); [reflexivity|]. exfalso. apply H; reflexivity.
+Qed.
+
+Lemma cj_wf fr : conj_wf (cj fr).
+Proof.
+  destruct (cj_run (mkVal (fun _ => mkStream (fun _ => 0) 0 0 0%N [] [] (fun _ => 1%N)) (fun _ _ => None) 0%N) fr) as (ds & M & Hc & I & _).
+  rewrite Hc. unfold chains, conj_wf. apply Forall_map. apply Forall_forall. intros d Hd. cbn. apply (si_ne _ _ I d Hd).
+Qed.
+
+Lemma existsb_map_seqn {A} (f : A -> bool) (g : nat -> A) n : existsb f (map g (seqn n)) = existsb (fun i => f (g i)) (seqn n).
+Proof. apply existsb_map'. Qed.
+
+(* OR groups of sequences: the whole set against holds *)
+Lemma seqs_sound v e : seqs e = true ->
+  eval_set v (map (fun i => cj (rd e i)) (seqn (readings e))) = holds v e (v_start v).
+Proof.
+  intros H. unfold eval_set, holds. rewrite existsb_map_seqn. apply existsb_ext_in. intros i Hi.
+  apply in_seq in Hi. rewrite (seqs_run v e H i (v_start v)) by lia.
+  destruct (cj_run v (rd e i)) as (ds & M & Hc & I & Hr & Hp). rewrite Hr, is_some_enc by exact Hp. reflexivity.
+Qed.
+
+Lemma is_some_then_run ra rb p :
+  (forall E, ra = Some E -> (length E <= 1)%nat) ->
+  is_some (then_run ra rb p) = match ra with
+                               | None => false
+                               | Some [] => is_some (rb p)
+                               | Some (q :: _) => is_some (rb q)
+                               end.
+Proof.
+  intros H. destruct ra as [[|q [|q2 r]]|]; try reflexivity.
+  - cbn. destruct (rb q) as [[|y ys]|]; reflexivity.
+  - specialize (H _ eq_refl). cbn in H. lia.
+Qed.
+
+Lemma enc_length v M ok E : enc v M ok = Some E -> (length E <= 1)%nat.
+Proof.
+  unfold enc. destruct ok; [|discriminate]. destruct M; [intros H; inversion H; cbn; lia|].
+  destruct (pos_of v _); [intros H; inversion H; cbn; lia|discriminate].
+Qed.
+
+Lemma holds_then v a b p :
+  holds v (EThen a b) p =
+  existsb (fun i => existsb (fun j => is_some (then_run (run v a i p) (fun q => run v b j q) p)) (seq 0 (readings b))) (seq 0 (readings a)).
+Proof.
+  unfold holds, seqn. cbn [readings].
+  rewrite <- (existsb_seq_prod2 (fun i j => is_some (then_run (run v a i p) (fun q => run v b j q) p))).
+  apply existsb_ext_in. intros k _. reflexivity.
+Qed.
+
+(* THEN: sequences on the left, anything with a sound set on the right *)
+Lemma then_sound v a b' yb : seqs a = true -> cset_wf yb -> yb <> [] ->
+  (forall q, eval_set (at_pos v q) yb = holds v b' q) ->
+  eval_set v (cs_then (map (fun i => cj (rd a i)) (seqn (readings a))) yb) = holds v (EThen a b') (v_start v).
+Proof.
+  intros Ha Wb Nb Hb. pose proof (seqs_readings a Ha) as Hra.
+  unfold cs_then. destruct (map (fun i => cj (rd a i)) (seqn (readings a))) as [|x0 xs] eqn:Ex.
+  { unfold seqn in Ex. destruct (readings a); [lia|discriminate]. }
+  destruct yb as [|y0 ys] eqn:Ey; [congruence|]. rewrite <- Ex, <- Ey in *. clear Ex x0 xs.
+  rewrite eval_set_flat_map, existsb_map_seqn.
+  rewrite holds_then. unfold seqn.
+  apply existsb_ext_in. intros i Hi. apply in_seq in Hi.
+  destruct (cj_run v (rd a i)) as (ds & M & Hc & I & Hr & Hp).
+  rewrite (seqs_run v a Ha i (v_start v)) by lia. rewrite Hr.
+  (* the conjunct side *)
+  transitivity (eval_conj v (cj (rd a i)) && match pos_of v M with Some q => eval_set (at_pos v q) yb | None => false end).
+  { unfold eval_set at 1. rewrite existsb_map'. rewrite Hc.
+    transitivity (existsb (fun c2 => eval_conj v (chains ds) && match pos_of v M with Some q => eval_conj (at_pos v q) c2 | None => false end) yb).
+    - apply existsb_ext_in. intros c2 Hc2. apply conj_then_sem; auto. unfold cset_wf in Wb. rewrite Forall_forall in Wb. auto.
+    - destruct (eval_conj v (chains ds)); cbn [andb].
+      + destruct (pos_of v M); [reflexivity|]. clear. induction yb; cbn; auto.
+      + clear. induction yb; cbn; auto. }
+  (* the run side *)
+  transitivity (existsb (fun j => match enc v M (eval_conj v (cj (rd a i))) with
+                                  | None => false
+                                  | Some [] => is_some (run v b' j (v_start v))
+                                  | Some (q :: _) => is_some (run v b' j q)
+                                  end) (seq 0 (readings b'))).
+  2:{ apply existsb_ext_in. intros j _. symmetry. apply is_some_then_run. intros E HE. eapply enc_length; eauto. }
+  unfold enc. destruct (eval_conj v (cj (rd a i))) eqn:E1; cbn [andb].
+  - specialize (Hp eq_refl). destruct M as [|m M'].
+    + unfold pos_of at 1. cbn [run_all]. rewrite Hb. reflexivity.
+    + destruct (pos_of v (m :: M')) as [q|]; [|congruence]. rewrite Hb. reflexivity.
+  - clear. induction (seq 0 (readings b')); cbn; auto.
+Qed.
+
+(* ------------------------------------------------------------------ the induction over the expression *)
+Definition v0 : valuation := mkVal (fun _ => mkStream (fun _ => 0) 0 0 0%N [] [] (fun _ => 1%N)) (fun _ _ => None) 0%N.
+Lemma v0_ok : val_ok v0.
+Proof.
+  intros sub. unfold stream_ok. cbn. split; [intros; lia|]. split; [lia|]. split; [reflexivity|].
+  intros n. left. reflexivity.
+Qed.
+
+Theorem norm_sound_then e :
+  tail_ok e = true -> expr_wf e ->
+  match norm e with
+  | Some cs => cs <> [] /\ cset_wf cs /\
+               exists e', strip e = Some e' /\
+                          forall v, val_ok v -> eval_set v cs = holds v e' (v_start v)
+  | None => strip e = None
+  end.
+Proof.
+  induction e as [a| |a IH|a IHa b IHb|a IHa b IHb|a IHa b IHb]; intros Hf Hw; cbn [tail_ok expr_wf norm strip] in *.
+  - split; [|split].
+    + apply (conds_of_atom_sound v0 v0_ok a Hw).
+    + apply (conds_of_atom_sound v0 v0_ok a Hw).
+    + exists (EAtom a). split; [reflexivity|]. intros v ok. rewrite holds_atom. apply (conds_of_atom_sound v ok a Hw).
+  - reflexivity.
+  - specialize (IH Hf Hw). destruct (norm a) as [cs|].
+    + destruct IH as (N & W & e' & Es & Ee). rewrite Es.
+      split; [|split].
+      * apply (cs_invert_sound v0 v0_ok cs N W).
+      * apply (cs_invert_sound v0 v0_ok cs N W).
+      * exists (ENot e'). split; [reflexivity|]. intros v ok. rewrite holds_not, <- (Ee v ok).
+        apply (cs_invert_sound v ok cs N W).
+    + rewrite IH. reflexivity.
+  - apply andb_true_iff in Hf as [Hfa Hfb]. destruct Hw as [Hwa Hwb].
+    specialize (IHa Hfa Hwa). specialize (IHb Hfb Hwb).
+    destruct (norm a) as [x|], (norm b) as [y|].
+    + destruct IHa as (Na & Wa & ea & Esa & Eea). destruct IHb as (Nb & Wb & eb & Esb & Eeb). rewrite Esa, Esb.
+      destruct (cs_and_sound v0 v0_ok x y Na Nb Wa Wb) as (_ & W & N). split; [exact N|]. split; [exact W|].
+      exists (EAnd ea eb). split; [reflexivity|]. intros v ok. rewrite holds_and, <- (Eea v ok), <- (Eeb v ok).
+      apply (cs_and_sound v ok x y Na Nb Wa Wb).
+    + destruct IHa as (Na & Wa & ea & Esa & Eea). rewrite Esa, IHb. split; [exact Na|]. split; [exact Wa|]. exists ea. auto.
+    + destruct IHb as (Nb & Wb & eb & Esb & Eeb). rewrite IHa, Esb. split; [exact Nb|]. split; [exact Wb|]. exists eb. auto.
+    + rewrite IHa, IHb. reflexivity.
+  - apply andb_true_iff in Hf as [Hfa Hfb]. destruct Hw as [Hwa Hwb].
+    specialize (IHa Hfa Hwa). specialize (IHb Hfb Hwb).
+    destruct (norm a) as [x|], (norm b) as [y|].
+    + destruct IHa as (Na & Wa & ea & Esa & Eea). destruct IHb as (Nb & Wb & eb & Esb & Eeb). rewrite Esa, Esb.
+      split; [unfold cs_or; destruct x; [congruence|discriminate]|]. split; [apply cset_wf_app; auto|].
+      exists (EOr ea eb). split; [reflexivity|]. intros v ok. rewrite holds_or, cs_or_sound, (Eea v ok), (Eeb v ok). reflexivity.
+    + destruct IHa as (Na & Wa & ea & Esa & Eea). rewrite Esa, IHb. split; [exact Na|]. split; [exact Wa|]. exists ea. auto.
+    + destruct IHb as (Nb & Wb & eb & Esb & Eeb). rewrite IHa, Esb. split; [exact Nb|]. split; [exact Wb|]. exists eb. auto.
+    + rewrite IHa, IHb. reflexivity.
+  - (* THEN *)
+    apply andb_true_iff in Hf as [Hfa Hfb]. destruct Hw as [Hwa Hwb]. specialize (IHb Hfb Hwb). clear IHa.
+    rewrite (seqs_norm a Hfa), (seqs_strip a Hfa).
+    pose proof (seqs_readings a Hfa) as Hra.
+    assert (Nx : map (fun i => cj (rd a i)) (seqn (readings a)) <> []).
+    { unfold seqn. destruct (readings a); [lia|discriminate]. }
+    assert (Wx : cset_wf (map (fun i => cj (rd a i)) (seqn (readings a)))).
+    { apply Forall_map. apply Forall_forall. intros i _. apply cj_wf. }
+    destruct (norm b) as [y|].
+    + destruct IHb as (Nb & Wb & eb & Esb & Eeb). rewrite Esb. split; [|split].
+      * unfold cs_then. destruct (map _ (seqn (readings a))) as [|x0 xs]; [congruence|]. destruct y; [congruence|]. discriminate.
+      * unfold cs_then. destruct (map (fun i => cj (rd a i)) (seqn (readings a))) as [|x0 xs] eqn:Ex; [congruence|].
+        destruct y as [|y0 ys] eqn:Ey; [congruence|]. rewrite <- Ex, <- Ey in *.
+        unfold cset_wf in *. rewrite Forall_forall in *. intros c Hc.
+        apply in_flat_map in Hc as (c1 & H1 & Hc). apply in_map_iff in Hc as (c2 & <- & H2).
+        apply conj_then_wf; auto.
+      * exists (EThen a eb). split; [reflexivity|]. intros v ok.
+        apply then_sound; auto. intros q. rewrite (Eeb (at_pos v q) (val_ok_at v q ok)). apply holds_at.
+    + rewrite IHb. split; [exact Nx|]. split; [exact Wx|]. exists a. split; [reflexivity|].
+      intros v ok. apply seqs_sound. exact Hfa.
+Qed.
+
+Theorem normalisation_preserves_meaning_then v e :
+  val_ok v -> ids_ok v -> tail_ok e = true -> expr_wf e ->
+  eval_set v (parse_conditions e) = sem v e.
+Proof.
+  intros ok iok Hf Hw. pose proof (norm_sound_then e Hf Hw) as H.
+  destruct (norm e) as [cs|] eqn:En.
+  - destruct H as (N & W & e' & Es & Ee). rewrite (parse_final_sound v e cs ok iok En N W).
+    unfold sem. rewrite Es. apply Ee. exact ok.
+  - unfold parse_conditions, sem. rewrite En, H. reflexivity.
+Qed.
+
+Theorem impossible_only_if_unsatisfiable_then e :
+  tail_ok e = true -> expr_wf e -> parse_conditions e = [] ->
+  forall v, val_ok v -> ids_ok v -> sem v e = false.
+Proof.
+  intros Hf Hw Hp v ok iok. rewrite <- (normalisation_preserves_meaning_then v e ok iok Hf Hw), Hp. reflexivity.
+Qed.
+
+(* the class lies inside the judged fragment *)
+Lemma grp_simple_nots g : grp g = true -> wf_seq false g = true /\ multi_end g = false.
+Proof.
+  induction g as [a| |a IH|a IHa b IHb|a IHa b IHb|a IHa b IHb]; cbn [grp]; intros H; try discriminate.
+  - split; reflexivity.
+  - destruct a as [[| | | | |sub [|el [|]]]| | | | |]; try discriminate. split; reflexivity.
+  - apply andb_true_iff in H as [Ha Hb]. destruct (IHa Ha) as [A1 A2]. destruct (IHb Hb) as [B1 B2].
+    cbn. rewrite A1, A2, B1, B2. split; reflexivity.
+Qed.
+Lemma seqs_wf_seq a : seqs a = true -> wf_seq false a = true /\ multi_end a = false.
+Proof.
+  induction a as [x| |x IH|x IHx y IHy|x IHx y IHy|x IHx y IHy]; cbn [seqs]; intros H; try discriminate.
+  - apply (grp_simple_nots (EAtom x) H).
+  - apply (grp_simple_nots (ENot x) H).
+  - apply andb_true_iff in H as [Ha Hb]. destruct (IHx Ha) as [A1 A2]. destruct (IHy Hb) as [B1 B2].
+    cbn. rewrite A1, A2, B1, B2. split; reflexivity.
+  - apply andb_true_iff in H as [Ha Hb]. destruct (IHx Ha) as [A1 A2]. destruct (grp_simple_nots y Hb) as [B1 B2].
+    cbn. rewrite A1, A2, B1, B2. split; reflexivity.
+Qed.
+Theorem tail_ok_judged e : tail_ok e = true -> wf_seq true e = true.
+Proof.
+  induction e as [x| |x IH|x IHx y IHy|x IHx y IHy|x IHx y IHy]; cbn [tail_ok]; intros H; try reflexivity.
+  - cbn. rewrite (IH H). reflexivity.
+  - apply andb_true_iff in H as [Ha Hb]. cbn. rewrite (IHx Ha), (IHy Hb). reflexivity.
+  - apply andb_true_iff in H as [Ha Hb]. cbn. rewrite (IHx Ha), (IHy Hb). reflexivity.
+  - apply andb_true_iff in H as [Ha Hb]. destruct (seqs_wf_seq x Ha) as [A1 A2]. cbn. rewrite A1, A2, (IHy Hb). reflexivity.
+Qed.
